@@ -1,6 +1,7 @@
 """Generated linear histories of project versions (DESIGN.md 3.4) and their
 materialisation as project directories."""
 import copy
+import re
 import os
 
 from hypothesis import strategies as st
@@ -87,10 +88,15 @@ def versions(history):
     grown = set()
     out = [{'spec': spec, 'apps': list(apps), 'evolutions': copy.deepcopy(evolutions),
             'deps': {}}]
-    for st_ in history['steps']:
+    for si, st_ in enumerate(history['steps']):
         spec = copy.deepcopy(spec)
         if st_['type'] == 'evolve':
             mutgen.ensure_seq_uids(st_['seq'])
+            # every step's walk numbers its new fields add1, add2, ...: make the uids unique
+            # over the whole history (rows and kinds are looked up by uid)
+            for m_ in st_['seq']:
+                if m_['kind'] == 'AddField' and re.match(r'add\d+$', str(m_['field'].get('uid'))):
+                    m_['field']['uid'] = 'h%d_%s' % (si, m_['field']['uid'])
             spec = R.apply_all(spec, st_['seq'], strict=True)
             # a linear history: this evolution was written when every other app was at its
             # latest evolution - the developer declares that (AFTER_EVOLUTIONS)
